@@ -761,6 +761,40 @@ def expandFullOf (canRes : Str → Bool) (x : Entry) (q : Path) : List Path :=
   | .tree _ cs => expandFullList canRes cs cs 0 q
   | _ => []
 
+/-- `s in t` (substring) -/
+def occursB (s : Str) : Str → Bool
+  | [] => s.isEmpty
+  | c :: cs => Str.startsWith (c :: cs) s || occursB s cs
+
+mutual
+/-- every entry name strictly inside the given entries avoids `name` as a substring -/
+def nameFreeB (name : Str) : Entry → Bool
+  | .tree t cs => !(occursB name t) && nameFreeListB name cs
+  | .token t _ => !(occursB name t)
+  | .empty => !(occursB name emptyName)
+def nameFreeListB (name : Str) : List Entry → Bool
+  | [] => true
+  | c :: cs => nameFreeB name c && nameFreeListB name cs
+end
+
+mutual
+/-- every entry name in the subtree is one of `tags` -/
+def namesInB (tags : List Str) : Entry → Bool
+  | .tree t cs => tags.contains t && namesInListB tags cs
+  | .token t _ => tags.contains t
+  | .empty => tags.contains emptyName
+def namesInListB (tags : List Str) : List Entry → Bool
+  | [] => true
+  | c :: cs => namesInB tags c && namesInListB tags cs
+end
+
+/-- tag-level sufficient condition for `RelativefySafe` at every path of `t` (decidable): the root's tag has a character
+    that is not a digit and is not a substring of the tag of any entry below the root -/
+def RootNameFree (t : Entry) : Prop :=
+  t.name.any (fun c => (Str.decVal c).isNone) = true ∧ nameFreeListB t.name t.children = true
+
+instance (t : Entry) : Decidable (RootNameFree t) := by unfold RootNameFree; exact inferInstance
+
 /-- side condition of `expand_spec` (decidable): for the terminals below `via`, `relativefy(via).de_identify().elements`
     is the list of tags of the path elements below `via`. Fails when the string `via` occurs again further right in the
     path (`origin.split(starts)[1]`), e.g. `via = r`, path `r.ar.t`. -/
